@@ -13,6 +13,7 @@ import (
 	"encoding/json"
 	"errors"
 	"fmt"
+	"hash/fnv"
 	"os"
 	"os/exec"
 	"path/filepath"
@@ -36,6 +37,9 @@ type pipeCfg struct {
 	Strict   bool     `json:"strict"`
 	PollMS   int      `json:"poll_ms"`
 	Monitors int      `json:"monitors"`
+	// registry.consul.register.addr of the child; aliases (routes with a register=<name> option) are
+	// registered through it: "" and "localhost" make every alias registration fail, "127.0.0.1:9998" works
+	SvcAddr string `json:"svcaddr,omitempty"`
 }
 
 type pipeIn struct {
@@ -56,6 +60,7 @@ type pipeOut struct {
 	Obs      []pipeObs              `json:"obs"`    // table + registry state at every sync point
 	Faults   int                    `json:"faults"` // injected 500 answers
 	Jumps    int                    `json:"jumps"`  // backwards index jumps
+	Holds    int                    `json:"holds"`  // how often the gate kept the table loop busy while the watchers moved on
 }
 
 var (
@@ -85,7 +90,18 @@ func buildFabio() (string, error) {
 		root := verifRoot()
 		os.MkdirAll(filepath.Join(root, ".work"), 0o755)
 		os.MkdirAll(filepath.Join(root, "bin"), 0o755)
-		lf, err := os.OpenFile(filepath.Join(root, ".work", "c01-fabio.lock"), os.O_CREATE|os.O_RDWR, 0o644)
+		// one binary (and one lock) per repository tree: runs against scratch worktrees (VERIF_REPO) at the same
+		// time as a run against /repo must not overwrite each other's child binary
+		fabioBin = filepath.Join(root, "bin", "fabio-verif-c01")
+		lock := "c01-fabio.lock"
+		if repo != "/repo" {
+			h := fnv.New32a()
+			h.Write([]byte(repo))
+			suffix := fmt.Sprintf("%08x", h.Sum32())
+			fabioBin = filepath.Join(root, ".work", "c01-fabio-"+suffix)
+			lock = "c01-fabio-" + suffix + ".lock"
+		}
+		lf, err := os.OpenFile(filepath.Join(root, ".work", lock), os.O_CREATE|os.O_RDWR, 0o644)
 		if err != nil {
 			fabioErr = err
 			return
@@ -93,7 +109,6 @@ func buildFabio() (string, error) {
 		defer lf.Close()
 		syscall.Flock(int(lf.Fd()), syscall.LOCK_EX)
 		defer syscall.Flock(int(lf.Fd()), syscall.LOCK_UN)
-		fabioBin = filepath.Join(root, "bin", "fabio-verif-c01")
 		cmd := exec.Command("go", "build", "-tags", "verif", "-o", fabioBin, ".")
 		cmd.Dir = repo
 		cmd.Env = append(os.Environ(), "GOFLAGS=-mod=mod", "GOPROXY=off")
@@ -127,7 +142,15 @@ func oracleFor(s Snapshot, prefix string) map[string]interface{} {
 				continue
 			}
 			src := f[0][k+1:]
-			for _, d := range []string{"http://" + hp + "/", "tcp://" + hp, "https://" + hp, "grpc://" + hp, "grpcs://" + hp} {
+			dsts := []string{"http://" + hp + "/", "tcp://" + hp, "https://" + hp, "grpc://" + hp, "grpcs://" + hp}
+			for _, o := range f[1:] {
+				if strings.HasPrefix(o, "redirect=") {
+					if p := strings.Split(o[len("redirect="):], ","); len(p) == 2 {
+						dsts = append(dsts, p[1])
+					}
+				}
+			}
+			for _, d := range dsts {
 				defs = append(defs, rt.Def{Cmd: "add", Src: src, Dst: d}, rt.Def{Cmd: "add", Src: strings.ToLower(src), Dst: d})
 			}
 		}
@@ -199,7 +222,7 @@ func runPipeline(raw json.RawMessage) (interface{}, error) {
 	vc := map[string]interface{}{
 		"addr": strings.TrimPrefix(srv.URL, "http://"), "prefix": in.Cfg.Prefix, "status": in.Cfg.Status,
 		"strict": in.Cfg.Strict, "kvpath": kvPath, "poll_ms": in.Cfg.PollMS, "monitors": in.Cfg.Monitors,
-		"debug": os.Getenv("VERIF_C01_DEBUG") != "",
+		"debug": os.Getenv("VERIF_C01_DEBUG") != "", "svcaddr": in.Cfg.SvcAddr,
 	}
 	vcj, _ := json.Marshal(vc)
 	cmd := exec.Command(bin)
@@ -283,12 +306,108 @@ func runPipeline(raw json.RawMessage) (interface{}, error) {
 		}
 		return table, nil
 	}
+	// ---- a busy table loop (history ops "hold" / "release") ----
+	// "hold" arms a gate in front of the real backend's Register in the child: the next event that changes the
+	// configuration text keeps the real watchBackend inside that iteration (between taking the event and
+	// building the table) until "release". The registry changes applied meanwhile are observed by the watchers
+	// while the table loop is NOT waiting in its select - the situation of two changes in quick succession or of
+	// a slow table build / alias registration. All waits are event based: the loop is held (child), each watcher
+	// has either come back for more or is blocked handing over what it computed from the current state.
+	type loopState struct {
+		Loop    string `json:"loop"`
+		Sending int    `json:"sending"`
+	}
+	state := func() (loopState, error) {
+		var st loopState
+		line, err := ask("state")
+		if err != nil {
+			return st, err
+		}
+		if err := json.Unmarshal(line, &st); err != nil || st.Loop == "" {
+			return st, fmt.Errorf("fabio child does not answer 'state' (%q): /repo lacks the gate hook of verif_c01_main.go", line)
+		}
+		return st, nil
+	}
+	poll := func(what string, done func() (bool, error)) error {
+		deadline := time.Now().Add(patience)
+		pause := 50 * time.Microsecond
+		for {
+			ok, err := done()
+			if err != nil || ok {
+				return err
+			}
+			if time.Now().After(deadline) {
+				return errors.New(what)
+			}
+			time.Sleep(pause)
+			if pause < 5*time.Millisecond {
+				pause *= 2
+			}
+		}
+	}
+	armed, engage, holds := false, false, 0
+	// after the first registry change behind an armed gate: wait until the gate has caught the table loop, or
+	// until the change has gone through without a new text (then the gate stays armed for the next change)
+	awaitEngaged := func() error {
+		return poll("table loop neither held nor idle after a change behind the gate", func() (bool, error) {
+			settled := reg.quiescedNow()
+			st, err := state()
+			if err != nil {
+				return false, err
+			}
+			return st.Loop == "held" || (settled && st.Loop == "idle"), nil
+		})
+	}
+	release := func() error {
+		if !armed {
+			return nil
+		}
+		armed, engage = false, false
+		wasHeld := false
+		err := poll("watchers neither came back nor block on the held table loop", func() (bool, error) {
+			st, err := state()
+			if err != nil {
+				return false, err
+			}
+			if st.Loop != "held" {
+				return true, nil // the gate caught nothing: nothing to wait for
+			}
+			wasHeld = true
+			return st.Sending >= reg.pendingWatchers(), nil
+		})
+		if err != nil {
+			return err
+		}
+		if wasHeld {
+			holds++
+		}
+		_, err = ask("release")
+		return err
+	}
 	// observations: at every sync point the watchers have seen the current registry state and the table loop
 	// has processed what they sent; the table installed then is shipped with that state (soundness is demanded
 	// of every one of them, faults or not)
 	obs := []pipeObs{}
 	for _, o := range in.Ops {
+		if o.Op == "hold" {
+			if !armed {
+				if _, err := ask("hold"); err != nil {
+					return nil, err
+				}
+				armed, engage = true, true
+			}
+			continue
+		}
+		if o.Op == "release" {
+			if err := release(); err != nil {
+				return nil, err
+			}
+			continue
+		}
 		if o.Op == "sync" {
+			if err := release(); err != nil {
+				return nil, err
+			}
 			if err := settle("the state (sync)"); err != nil {
 				return nil, err
 			}
@@ -303,6 +422,15 @@ func runPipeline(raw json.RawMessage) (interface{}, error) {
 			continue
 		}
 		reg.apply(o)
+		if engage && changesRegistry(o.Op) {
+			engage = false
+			if err := awaitEngaged(); err != nil {
+				return nil, err
+			}
+		}
+	}
+	if err := release(); err != nil {
+		return nil, err
 	}
 	// the faults stop; the final state is delivered; if the configuration delivered last was built while a
 	// catalog lookup failed, one more health change (index only) makes the monitor look again
@@ -332,7 +460,15 @@ func runPipeline(raw json.RawMessage) (interface{}, error) {
 	reg.mu.Lock()
 	faults, jumps := reg.faultsSeen, reg.hJumps+reg.kvJumps
 	reg.mu.Unlock()
-	return pipeOut{Table: table, Registry: snap, Oracle: oracleFor(snap, in.Cfg.Prefix), Obs: obs, Faults: faults, Jumps: jumps}, nil
+	return pipeOut{Table: table, Registry: snap, Oracle: oracleFor(snap, in.Cfg.Prefix), Obs: obs, Faults: faults, Jumps: jumps, Holds: holds}, nil
+}
+
+func changesRegistry(op string) bool {
+	switch op {
+	case "reg", "dereg", "status", "serf", "nodemaint", "svcmaint", "kv":
+		return true
+	}
+	return false
 }
 
 // ---- generators ----
@@ -341,7 +477,11 @@ var (
 	uNodes    = []string{"n1", "n1", "n1.x", "n1.x", "n2"}
 	uIDs      = []string{"y", "x.y", "a", "x.a", "y"}
 	uNames    = []string{"s", "s", "t"}
-	uRouteTag = []string{"/a", "/b", "/a/b", "foo.com/", "Foo.com/x", ":1234 proto=tcp", "/s strip=/s", "bar.com/ proto=https"}
+	uRouteTag = []string{"/a", "/b", "/a/b", "foo.com/", "Foo.com/x", ":1234 proto=tcp", "/s strip=/s", "bar.com/ proto=https",
+		"/r register=alias1", "old.com/ redirect=301,https://new.com/", "/g proto=grpc register=alias2"}
+	// registry.consul.register.addr of the child: the default (its outcome depends on the machine), a usable
+	// one, and two with which every alias registration fails
+	uSvcAddr  = []string{":9998", "127.0.0.1:9998", "localhost", ""}
 	uPlainTag = []string{"v1", "blue"}
 	uStatus   = []string{"passing", "passing", "passing", "warning", "critical", "maintenance"}
 	uAccept   = [][]string{{"passing"}, {"passing"}, {"passing", "warning"}, {"passing", "unknown"}}
@@ -355,6 +495,7 @@ func genCfg(r *hx.Rand) pipeCfg {
 	if r.Chance(1, 8) {
 		c.Prefix = "fab-"
 	}
+	c.SvcAddr = r.Pick(uSvcAddr)
 	return c
 }
 
@@ -362,7 +503,7 @@ func genTags(r *hx.Rand, prefix string) []string {
 	var ts []string
 	if r.Chance(5, 6) {
 		ts = append(ts, prefix+r.Pick(uRouteTag))
-		if r.Chance(1, 4) {
+		for r.Chance(1, 3) && len(ts) < 4 {
 			ts = append(ts, prefix+r.Pick(uRouteTag))
 		}
 	}
@@ -392,6 +533,9 @@ func genReg(r *hx.Rand, prefix string) Op {
 
 func genKV(r *hx.Rand, have []Op) Op {
 	o := Op{Op: "kv", Key: r.Pick([]string{"a", "b"})}
+	if r.Chance(1, 2) {
+		o.Pad = r.Intn(len(kvPre) * len(kvPost))
+	}
 	if r.Chance(1, 6) {
 		return o // delete the key
 	}
@@ -460,6 +604,40 @@ func kvJumpBlock(r *hx.Rand) []Op {
 	return ops
 }
 
+// busyBlock: two healthy tagged instances, the watchers catch up; then the table loop is kept busy inside the
+// iteration of a change that alters the text (an operator edit or a new instance) while one of the two turns
+// unhealthy - the monitor observes that state while the table loop is not waiting in its select - and is let go.
+func busyBlock(r *hx.Rand, prefix string) []Op {
+	name := r.Pick(uNames)
+	a := Op{Op: "reg", Node: "n1", ID: r.Pick([]string{"a", "y"}), Name: name, Port: 8000, Tags: []string{prefix + r.Pick([]string{"/a", "/b", "foo.com/"})},
+		Checks: []chk{{ID: "service:1", Status: "passing"}}}
+	b := Op{Op: "reg", Node: "n2", ID: r.Pick([]string{"a", "x.y"}), Name: name, Port: 8001, Tags: a.Tags,
+		Checks: []chk{{ID: "service:1", Status: "passing"}}}
+	ops := []Op{a, b, {Op: "sync"}, {Op: "hold"}}
+	if r.Chance(1, 2) {
+		d := rt.Def{Cmd: "add", Service: "busy", Src: "/busy", Dst: r.Pick([]string{"http://10.9.9.7:82/", "http://10.9.9.6:83/"})}
+		d.Fill()
+		ops = append(ops, Op{Op: "kv", Key: "b", Defs: []rt.Def{d}})
+	} else {
+		ops = append(ops, Op{Op: "reg", Node: "n1.x", ID: "busy", Name: "t", Port: 8002, Tags: []string{prefix + "/busy"},
+			Checks: []chk{{ID: "service:1", Status: "passing"}}})
+	}
+	switch r.Intn(4) {
+	case 0:
+		ops = append(ops, Op{Op: "status", Node: b.Node, ID: b.ID, Check: "service:1", Status: "critical"})
+	case 1:
+		ops = append(ops, Op{Op: "serf", Node: b.Node, Status: "critical"})
+	case 2:
+		ops = append(ops, Op{Op: "svcmaint", Node: b.Node, ID: b.ID, On: true})
+	default:
+		ops = append(ops, Op{Op: "nodemaint", Node: b.Node, On: true})
+	}
+	if r.Chance(1, 3) {
+		ops = append(ops, Op{Op: "release"})
+	}
+	return append(ops, Op{Op: "sync"})
+}
+
 func genHistory(r *hx.Rand, i int) interface{} {
 	in := pipeIn{Cfg: genCfg(r)}
 	var regs []Op
@@ -469,7 +647,23 @@ func genHistory(r *hx.Rand, i int) interface{} {
 	if faulty {
 		blockAt = r.Intn(n)
 	}
+	busyAt := -1 // histories in which a change is observed while the table loop is busy
+	if r.Chance(1, 4) {
+		busyAt = r.Intn(n)
+	}
 	for k := 0; k < n; k++ {
+		if k == busyAt {
+			blk := busyBlock(r, in.Cfg.Prefix)
+			for _, o := range blk {
+				if o.Op == "reg" {
+					regs = append(regs, o)
+				}
+			}
+			in.Ops = append(in.Ops, blk...)
+			if k != blockAt {
+				continue
+			}
+		}
 		if k == blockAt {
 			var blk []Op
 			if r.Chance(1, 2) {
@@ -529,7 +723,13 @@ func genHistory(r *hx.Rand, i int) interface{} {
 		default:
 			o = Op{Op: "sync"}
 		}
+		if r.Chance(1, 12) {
+			in.Ops = append(in.Ops, Op{Op: "hold"}) // the change that follows keeps the table loop busy
+		}
 		in.Ops = append(in.Ops, o)
+		if r.Chance(1, 12) {
+			in.Ops = append(in.Ops, Op{Op: "release"})
+		}
 		if r.Chance(1, 5) {
 			in.Ops = append(in.Ops, Op{Op: "sync"})
 		}
@@ -646,10 +846,51 @@ var healthAnomalyHistory = pipeIn{
 	},
 }
 
+// an instance turns critical while the table loop is busy with an operator edit (the state is observed while
+// watchBackend is not waiting in its select); it must be gone from the table observed next
+var busyLoopHistory = pipeIn{
+	Cfg: pipeCfg{Prefix: "urlprefix-", Status: []string{"passing"}, SvcAddr: "127.0.0.1:9998"},
+	Ops: []Op{
+		{Op: "reg", Node: "n1", ID: "web-1", Name: "web", Port: 8001, Tags: []string{"urlprefix-/web"}, Checks: []chk{{ID: "service:web-1", Status: "passing"}}},
+		{Op: "reg", Node: "n2", ID: "web-2", Name: "web", Port: 8002, Tags: []string{"urlprefix-/web"}, Checks: []chk{{ID: "service:web-2", Status: "passing"}}},
+		{Op: "sync"},
+		{Op: "hold"},
+		{Op: "kv", Key: "a", Defs: []rt.Def{{Cmd: "add", Service: "static", Src: "/static", Dst: "http://10.9.9.9:80/"}}},
+		{Op: "status", Node: "n2", ID: "web-2", Check: "service:web-2", Status: "critical"},
+		{Op: "release"},
+		{Op: "sync"},
+	},
+}
+
+// a route asks for an alias (register=www) that cannot be registered (register.addr without a port); the table
+// must follow the registry all the same: the operator route appears, the critical instance disappears
+var aliasFailsHistory = pipeIn{
+	Cfg: pipeCfg{Prefix: "urlprefix-", Status: []string{"passing"}, SvcAddr: "localhost"},
+	Ops: []Op{
+		{Op: "reg", Node: "n1", ID: "web-1", Name: "web", Port: 8001, Tags: []string{"urlprefix-/web"}, Checks: []chk{{ID: "service:web-1", Status: "passing"}}},
+		{Op: "reg", Node: "n2", ID: "web-2", Name: "web", Port: 8002, Tags: []string{"urlprefix-/web"}, Checks: []chk{{ID: "service:web-2", Status: "passing"}}},
+		{Op: "sync"},
+		{Op: "kv", Key: "a", Defs: []rt.Def{{Cmd: "add", Service: "www", Src: "www.example.com/", Dst: "http://10.0.0.9:80/", Opts: [][]string{{"register", "www"}}}}},
+		{Op: "sync"},
+		{Op: "status", Node: "n2", ID: "web-2", Check: "service:web-2", Status: "critical"},
+		{Op: "sync"},
+	},
+}
+
+// one instance, two routing tags, the first with an option that changes the destination: every tag gets the
+// destination of its own options
+var tagOrderHistory = pipeIn{
+	Cfg: pipeCfg{Prefix: "urlprefix-", Status: []string{"passing"}},
+	Ops: []Op{
+		{Op: "reg", Node: "n1", ID: "web-1", Name: "web", Port: 8001, Tags: []string{"urlprefix-old.com/ redirect=301,https://new.com/", "urlprefix-new.com/"}, Checks: []chk{{ID: "service:web-1", Status: "passing"}}},
+		{Op: "reg", Node: "n2", ID: "web-2", Name: "web", Port: 8002, Tags: []string{"urlprefix-:1234 proto=tcp", "urlprefix-/web", "urlprefix-/g proto=grpc"}, Checks: []chk{{ID: "service:web-2", Status: "passing"}}},
+	},
+}
+
 func init() {
 	hx.Register(&hx.Stream{
 		Name:   "c01.pipeline",
-		Corpus: []interface{}{d01History, catalogFaultHistory, kvIndexBackHistory, healthAnomalyHistory},
+		Corpus: []interface{}{d01History, catalogFaultHistory, kvIndexBackHistory, healthAnomalyHistory, busyLoopHistory, aliasFailsHistory, tagOrderHistory},
 		Gen:    genHistory,
 		Run:    runPipeline,
 	})
